@@ -12,7 +12,6 @@
 -/
 import Manticore.Model.C06
 import Manticore.Lemmas.Endian
-import Manticore.Props.C06.Consts
 namespace Manticore.C06
 open Manticore
 
